@@ -47,6 +47,18 @@ CLAIMS = {
          "jets at 0 are (1,0,-1/3,0), (0,1/3,0,-1/5), (0,0,2/15,0); the exp_m1 / ln_1p towers hold at 0. Finiteness (no NaN from 0*inf or 0/0) cannot be expressed over the reals, where 1/0 and ln 0 are "
          "totalised: it is decided by executing the generated model on primitive binary64 floats inside Coq at every enumerated special point and its float neighbours, bit for bit against the implementation, "
          "and by an oracle requiring every part finite and equal to the mathematical jet (this is enumeration of a finite set of points with random derivative parts, not a theorem about all parts)."),
+ 'C15': ("Coq proof: on each branch the regenerated coefficients are a Coquelicot tower of the closed form / of the series polynomial, every type's parts are Faa di Bruno of it, branch chosen by |re| < eps; bit-exact correspondence; one open known finding",
+         "Theorems (Props/C15.v, 35): the generated sph_j0/1/2 coincide, as dual numbers, with the closed forms sin x/x, (sin x - x cos x)/x^2, ((3-x^2) sin x - 3x cos x)/x^3 wherever |re| >= eps and with the series "
+         "polynomials 1 - x^2/6, (x - x^3/10)/3, x^2/15 wherever |re| < eps; the third-order coefficients of the closed forms are a Coquelicot derivative tower of those functions at every x <> 0 and those of the series of "
+         "the polynomials; for each of the eight types and both branches the parts are Faa di Bruno of the branch's tower; above the switch the real part equals the plain-float implementation's formula. The jets at 0 are "
+         "in C10. Implementation run on [-50, 50], 0, below the switch, the switch value and its neighbours on both signs, small arguments, f32/f64 and plain floats. KNOWN FINDING (open, listed): the closed forms cancel "
+         "catastrophically for eps <= |x| < 1; only that class is suppressed. Not proved: closeness of the series to the true functions for 0 < |x| < eps (eps^2, tested)."),
+ 'C18': ("Coq proof: token lists generated from the source's format strings render, for any number format, as the documented layout; shown numbers = stored parts in order (injectivity); Derivative::fmt hand-modelled; bit-exact correspondence of the printed numbers",
+         "Theorems (Props/C18.v, 18): for an arbitrary way of showing the inner number (hence nested types) and any number/matrix formatting, the token list the translator generates from each scalar type's format "
+         "string renders as: real part, then for each part in declaration order ' + ', its rendering, its documented symbol; vector types are real part followed by Derivative::fmt of each optional part with its symbol; "
+         "an absent part prints nothing, a present one ' + ' body symbol; at the leaves the numbers shown are exactly the stored parts in order (so the rendering is injective). Derivative::fmt is modelled by hand "
+         "(coq/ND/Hand/DerFmt.v). The implementation's to_string is tokenised, every number parsed back and compared by bits and position with the model's tokens and with an independent rendering of the documented layout. "
+         "Trusted: Rust's float Display/parse round trip (re-checked on every case), nalgebra's 2-D matrix printer (numbers compared in reading order). Python repr = Display is decided under C17."),
 }
 props = [json.loads(l) for l in open('/verif/properties.jsonl')]
 checks = []
